@@ -190,3 +190,55 @@ def trunc_programs(seed, n, syms=gen.SYMS, kinds=("abelian", "fermionic"), tids=
             steps.append({"op": "svd_truncated", "in": ["x"], "out": [f"U{j}", f"S{j}", f"V{j}"], "args": args})
         progs.append({"tid": tids(), "inputs": {"x": x}, "steps": steps})
     return progs
+
+
+def lazy_linalg_programs(seed, n, syms=gen.SYMS, tids=None):
+    """C09: decompositions of a lazily signed fermionic matrix and of its synchronised copy."""
+    from .lazy import lazy_prefix
+
+    tids = tids or gen.Tids()
+    progs = []
+    for i in range(n):
+        rng = gen.rng_for(seed, "lazylinalg", i)
+        sym = syms[i % len(syms)]
+        inputs = {"x0": matrix(rng, sym, "fermionic", pattern="monomial", phases=0.5)}
+        steps, lazy = lazy_prefix(rng, 2, rng.randint(1, 3))
+        steps.append({"op": "phase_sync", "in": [lazy], "out": ["xs"], "args": {}})
+        for tag, src in (("L", lazy), ("S", "xs")):
+            steps.append({"op": "qr", "in": [src], "out": [f"q{tag}", f"r{tag}"], "args": {}})
+            steps.append({"op": "matmul", "in": [f"q{tag}", f"r{tag}"], "out": [f"qr{tag}"], "args": {}})
+            steps.append({"op": "svd", "in": [src], "out": [f"u{tag}", f"s{tag}", f"vh{tag}"], "args": {}})
+            steps.append({"op": "svd_truncated", "in": [src], "out": [f"tu{tag}", f"ts{tag}", f"tv{tag}"],
+                          "args": {"max_bond": 2, "absorb": -1}})
+            steps.append({"op": "matmul", "in": [f"tu{tag}", f"tv{tag}"], "out": [f"tp{tag}"], "args": {}})
+        steps.append(rel("same", "C09.twin.qr_product", "qrL", "qrS"))
+        steps.append(rel("same", "C09.twin.svd_values", "sL", "sS"))
+        steps.append(rel("same", "C09.twin.svd_truncated_product", "tpL", "tpS"))
+        # eigh on a hermitian matrix, solve
+        inputs["h0"] = matrix(rng, sym, "fermionic", hermitian=True, phases=0.0)
+        for j, op in enumerate(rng.sample(["phase_global", "phase_flip0", "phase_flip1", "phase_flip01"], 2)):
+            pass
+        steps.append({"op": "phase_global", "in": ["h0"], "out": ["h1"], "args": {}})
+        steps.append({"op": "phase_sync", "in": ["h1"], "out": ["h2"], "args": {}})
+        steps.append({"op": "phase_global", "in": ["h2"], "out": ["hl"], "args": {}})   # == h0, lazily
+        for tag, src in (("L", "hl"), ("S", "h0")):
+            steps.append({"op": "eigh", "in": [src], "out": [f"w{tag}", f"v{tag}"], "args": {}})
+            steps.append({"op": "multiply_diagonal", "in": [f"v{tag}", f"w{tag}"], "out": [f"vw{tag}"], "args": {"axis": 1}})
+            steps.append({"op": "dagger", "in": [f"v{tag}"], "out": [f"vH{tag}"], "args": {}})
+            steps.append({"op": "matmul", "in": [f"vw{tag}", f"vH{tag}"], "out": [f"rec{tag}"], "args": {}})
+        steps.append(rel("same", "C09.twin.eigh_values", "wL", "wS"))
+        steps.append(rel("same", "C09.twin.eigh_reconstruction", "recL", "recS"))
+        A = matrix(rng, sym, "fermionic", pattern="monomial_square", full=True, phases=0.0, start=2)
+        inputs["A0"] = A
+        inputs["b0"] = gen.rand_array(rng, sym, 1, "fermionic", ixs=[dict(A["ix"][0])], sparse=0.2,
+                                      phases=0.0, oddpos=15, start=1)
+        inputs["b0"]["fill"]["mod"] = 1   # entries +-1... keep solutions integral where possible
+        steps.append({"op": "phase_flip", "in": ["A0"], "out": ["A1"], "args": {"axs": [0]}})
+        steps.append({"op": "phase_sync", "in": ["A1"], "out": ["A2"], "args": {}})
+        steps.append({"op": "phase_flip", "in": ["A2"], "out": ["Al"], "args": {"axs": [0]}})  # == A0, lazily
+        for tag, src in (("L", "Al"), ("S", "A0")):
+            steps.append({"op": "solve", "in": [src, "b0"], "out": [f"x{tag}"], "args": {}})
+            steps.append({"op": "matmul", "in": [src, f"x{tag}"], "out": [f"Ax{tag}"], "args": {}})
+        steps.append(rel("same", "C09.twin.solve_residual", "AxL", "AxS"))
+        progs.append({"tid": tids(), "inputs": inputs, "steps": steps})
+    return progs
